@@ -150,12 +150,12 @@ def check_python(report):
     rets = [n for n in ast.walk(fi.node) if isinstance(n, ast.Return)]
     r.check(len(rets) == 1 and pmatch("next(_G_, ())", rets[0].value) is not None, p, fi.node.lineno, ast.unparse(rets[0].value) if rets else "",
             "the first non-empty verb wins; () when there is none")
-    fh = m.cls("gapic.schema.wrappers.FieldHeader")
-    dis = m.member(fh, "disambiguated")
-    rets = [n for n in ast.walk(dis.node) if isinstance(n, ast.Return)]
+    from .common_rules import per_segment_disambiguation
+    ok, shown, dfi = per_segment_disambiguation("gapic.schema.wrappers.FieldHeader.disambiguated", "raw")
     r.instance("FieldHeader.disambiguated")
-    r.check(len(rets) == 1 and ast.unparse(rets[0].value) == "self.raw + '_' if self.raw in utils.RESERVED_NAMES else self.raw", p, dis.node.lineno,
-            ast.unparse(rets[0].value) if rets else "", "disambiguated = raw + '_' iff raw in RESERVED_NAMES")
+    r.check(ok, p, dfi.node.lineno, f"FieldHeader.disambiguated: {shown[:120]}",
+            "the attribute path read for an implicit header is the raw path with every reserved SEGMENT suffixed by '_' "
+            "(`{book.class=...}` must read request.book.class_; testing the whole dotted string leaves `request.book.class`, a syntax error)")
     tr = m.func("gapic.schema.wrappers.RoutingParameter._to_regex")
     rets = [n for n in ast.walk(tr.node) if isinstance(n, ast.Return)]
     r.instance("_to_regex anchored")
@@ -172,11 +172,9 @@ def check_python(report):
     r.instance("key")
     r.check("self.to_regex()" in src and "groupindex" in src and "return self.field" in src, p, ky.node.lineno, "RoutingParameter.key",
             "key is the named group of the template, or the field name when there is no template / no named group")
-    dfp = m.func("gapic.schema.wrappers.RoutingParameter.disambiguated_field")
-    rets = [n for n in ast.walk(dfp.node) if isinstance(n, ast.Return)]
+    ok, shown, dfp = per_segment_disambiguation("gapic.schema.wrappers.RoutingParameter.disambiguated_field", "field")
     r.instance("disambiguated_field")
-    r.check(len(rets) == 1 and pmatch("'.'.join((_S_ + '_' if _S_ in utils.RESERVED_NAMES else _S_ for _S_ in self.field.split('.')))", rets[0].value) is not None,
-            p, dfp.node.lineno, ast.unparse(rets[0].value) if rets else "", "each path segment is suffixed iff reserved (dotted routing fields read nested attributes)")
+    r.check(ok, p, dfp.node.lineno, f"disambiguated_field: {shown[:120]}", "each path segment is suffixed iff reserved (dotted routing fields read nested attributes)")
     # routing parameters keep declaration order
     rr = m.func("gapic.schema.wrappers.RoutingRule.try_parse_routing_rule")
     src = ast.unparse(rr.node)
